@@ -1080,7 +1080,7 @@ func (rs *runState) runAttempt(att int, a AttemptPlan, dsnOverride string) {
 		cmds, sent := connRec.snapshot()
 		for i, c := range cmds {
 			rec.Emit(M{"ev": "cmd", "att": att, "i": i, "kind": c.Kind, "sql": B(c.SQL), "serverid": u32s(c.ServerID),
-				"file": B(c.File), "off": u32s(c.Off), "flags": int(c.Flags), "ok": c.OK})
+				"file": B(c.File), "off": u32s(c.Off), "flags": int(c.Flags), "ok": c.OK, "conn": c.Conn})
 		}
 		rec.Emit(M{"ev": "sock", "att": att, "peerClosed": closed, "masterEnded": masterEnded, "sent": sent,
 			"ms": int(time.Since(tRet) / time.Millisecond)})
